@@ -151,6 +151,11 @@ class Prov:
         proj = proj or []
         if self.cut and local > fn.argc and fn.locals[local].get("n"):
             nwhole = [d for d in self.defs.get(local, []) if d[2] is None]
+            if self.flow is not None and len(nwhole) > 1:
+                # definitions in blocks the assumption rules out do not make the local a multi-definition variable
+                nwhole = [d for d in nwhole if self.flow.state_in[d[0]] is not None]
+            if self.cut == "loop" and len(nwhole) > 1 and not any(d[0] in self.cycle_blocks() for d in nwhole):
+                nwhole = nwhole[:1]     # re-assigned outside every loop: its reaching definitions are finite alternatives
             if len(nwhole) > 1 or (self.cut == "all" and nwhole and fn.locals[local]["n"] not in ("val", "residual", "e", "v", "iter", "__next")):
                 return self._apply_proj(("var", fn.locals[local]["n"], local), proj, bi, si, depth)
         whole, partial, entry = self.reaching(local, bi, si)
@@ -187,6 +192,14 @@ class Prov:
         if len(uniq) == 1:
             return uniq[0]
         return ("phi", frozenset(uniq))
+
+    def cycle_blocks(self):
+        """Blocks that lie on a cycle of the (normal-edge) control flow graph."""
+        if getattr(self, "_cyc", None) is None:
+            from . import cfg
+            succ = self.fn.succ()
+            self._cyc = {b for b in range(len(self.fn.blocks)) if any(b in cfg.reach(self.fn, s_) for s_ in succ[b])}
+        return self._cyc
 
     def var_defs(self, local):
         """Terms assigned to a cut variable, one per (feasible) definition site: [(block, line, term)]."""
